@@ -308,6 +308,8 @@ def run(ctx: Ctx):
                 col.ob("G1", "S6", f"{f.module.relname}::{f.qualname}::simple_random_sampling_without_replacement(total,given)",
                        ok, f"total_count<-{tot}, given_count<-{giv}", f.module.relname, c.lineno, sample=got)
     col.floor("srswor_call_sites", n_srs, 1)
+    # ---- S8 conditional relaxed density: -inf exactly where threshold(z) differs from b as an *event* ----------------
+    _clog_prob_masks(ctx)
     plumbing(ctx, "S6")
     return dict(
         explanation=(
@@ -352,10 +354,79 @@ def _under_zero_product(f, node) -> bool:
     return False
 
 
+def _clog_prob_masks(ctx: Ctx):
+    """S8: P(z | b) P(b) = P(z) [H(z) = b]. Every `clog_prob` returns `<density>.masked_fill(M, -inf)` where M says that
+    the thresholded sample differs from b *as an event*: element-wise `H(z) != b` when the density is not reduced over an
+    event axis, and `(H(z) != b).any(-1)` (or `~(H(z) == b).all(-1)`) when it is summed over the last axis. `all` in place
+    of `any` only masks vectors that differ everywhere, which for one-hot vectors of three or more classes never
+    happens."""
+    from sa.defuse import ReachingDefs
+    col, pkg = ctx.col, ctx.pkg
+    n = 0
+    for f in pkg.all_functions():
+        if f.name != "clog_prob" or f.cls is None or f.module.name.split(".")[-1] != "_straight_through":
+            continue
+        rets = [x for x in own_nodes(f.node) if isinstance(x, ast.Return) and x.value is not None]
+        if not rets or any(isinstance(st, ast.Raise) for st in f.node.body[-1:]):
+            continue
+        rd = ReachingDefs(f.node)
+        rel = f.module.relname
+        where = f"{rel}::{f.qualname}"
+        zname, bname = f.params[1].name, f.params[2].name
+        for r in rets:
+            v = r.value
+            if not (isinstance(v, ast.Call) and isinstance(v.func, ast.Attribute) and v.func.attr == "masked_fill" and len(v.args) == 2):
+                continue
+            n += 1
+            M = v.args[0]
+            if isinstance(M, ast.Name):
+                ds = list(rd.defs_of(M))
+                M = ds[0].value if len(ds) == 1 and ds[0].kind == "assign" else M
+            # is the density reduced over the event axis?
+            dens = rd.derives(v.func.value)
+            reduced = any(isinstance(c.func, ast.Attribute) and c.func.attr == "sum" and c.args and u(c.args[0]) == "-1"
+                          and not any(k.arg == "keepdim" for k in c.keywords) for c in dens.calls())
+            red = None
+            neg = False
+            core = M
+            if isinstance(core, ast.UnaryOp) and isinstance(core.op, ast.Invert):
+                neg, core = True, core.operand
+            if isinstance(core, ast.Call) and isinstance(core.func, ast.Attribute) and core.func.attr in ("any", "all"):
+                red, core = core.func.attr, core.func.value
+            op = None
+            if isinstance(core, ast.Compare) and len(core.ops) == 1:
+                op = {ast.NotEq: "ne", ast.Eq: "eq"}.get(type(core.ops[0]))
+                sides = [core.left, core.comparators[0]]
+            elif isinstance(core, ast.Call) and isinstance(core.func, ast.Attribute) and core.func.attr in ("ne", "eq") and len(core.args) == 1:
+                op, sides = core.func.attr, [core.func.value, core.args[0]]
+            ok_sides = False
+            if op:
+                def is_thr(e):
+                    return any(isinstance(c, ast.Call) and isinstance(c.func, ast.Attribute) and c.func.attr == "threshold"
+                               for c in rd.derives(e).calls()) and zname in rd.derives(e).params()
+                def is_b(e):
+                    return isinstance(e, ast.Name) and e.id == bname
+                ok_sides = (is_thr(sides[0]) and is_b(sides[1])) or (is_thr(sides[1]) and is_b(sides[0]))
+            # event-level "differs": ne [+ any]  or  not(eq [+ all])
+            if reduced:
+                ok = ok_sides and ((op == "ne" and red == "any" and not neg) or (op == "eq" and red == "all" and neg))
+            else:
+                ok = ok_sides and red is None and ((op == "ne" and not neg) or (op == "eq" and neg))
+            col.ob("G12", "S8", f"{where}::zero-off-the-threshold-preimage", ok,
+                   f"clog_prob masks with `{u(v.args[0])}` = `{u(M)[:80]}` (density {'summed over the event axis' if reduced else 'element-wise'}); "
+                   f"the conditional density must be -inf exactly when threshold({zname}) differs from {bname} as an event"
+                   f"{' - any component differing, not all of them' if reduced else ''}", rel, r.lineno,
+                   sample=dict(mask=u(M)[:80], reduced=reduced))
+    col.floor("clog_prob_masks", n, 2)
+
+
 def _mutants():
     from selftest.mutate import Mutant as M
     F = "_mc.py"
     return [
+        M("categorical-mismatch-needs-all", "_straight_through.py", "zero_prob = (bcond != b).any(-1)", "zero_prob = (bcond != b).all(-1)", "zero-off-the-threshold-preimage"),
+        M("bernoulli-mask-inverted", "_straight_through.py", "zero_prob = bcond != b", "zero_prob = bcond == b", "zero-off-the-threshold-preimage"),
+        M("twin:mismatch-by-not-all-equal", "_straight_through.py", "zero_prob = (bcond != b).any(-1)", "zero_prob = ~(bcond == b).all(-1)", "", twin=True),
         M("direct-uses-rsample", F, "b = self.proposal.sample([self.mc_samples])\n        fb = self.func(b)\n        if self.is_log:\n            fb_lmax",
           "b = self.proposal.rsample([self.mc_samples])\n        fb = self.func(b)\n        if self.is_log:\n            fb_lmax", "sampling-mode"),
         M("reparam-uses-sample", F, "z = self.proposal.rsample([self.mc_samples])\n        fz = self.func(z)",
